@@ -269,6 +269,7 @@ private theorem extendOne_frame (cfg : Cfg) (ext : Ext) (N Nin : List (String ×
     (t : TypeO) (na : Addr) (hna : h0.size ≤ na) : Frame h0 (extendOne cfg ext N Nin h t na) := by
   simp only [extendOne]
   apply write_fresh_frame _ _ _ hna
+  simp only [extendKids]
   split
   · exact buildArgs_frame Nin h0 _ (extendArgs_frame _ N h0 h f _) _
   · exact buildFields_frame N h0 _ (extendFields_frame cfg N h0 h f _) _
@@ -355,7 +356,10 @@ theorem extend_sequence_frames_source (cfg : Cfg) (ops : List (Ext × Schema)) (
 theorem visibility_hides_type_partial (p : VisP) (reg : List (String × Addr)) (h : Heap) (a : Addr) (t : TypeO)
     (ht : h.readType a = some t) (hid : p.isTypeVisible t.name = false) : (onType (.vis p) reg h a).2 = none := by
   simp only [onType, ht]
+  have hin : ∀ h' t', (inputRest (.vis p) reg a t.name h' t').2 = none := by
+    intro h' t'; simp [inputRest, hid]
   cases hk : t.kind <;> simp [onComposite, onInputObject, onUnion, onLeaf, hid]
+  split <;> exact hin _ _
 
 theorem lookup_regErase (reg : List (String × Addr)) (n : String) : lookup (regErase reg n) n = none := by
   simp only [lookup, regErase, Option.map_eq_none_iff, List.find?_eq_none]
